@@ -421,7 +421,9 @@ void producer_main(int producer)
 void install_quit_begin_marker()
 {
     QObject::connect(C->app, &QCoreApplication::aboutToQuit, [] {
-        if (C->oth && C->oth->ownThread())
+        // (the library connects its stop to aboutToQuit only when an application object exists at the
+        // moment the logger thread is started; otherwise quitting is no stop at all)
+        if (C->oth && C->oth->ownThread() && C->quit_connected)
             sim::ev(E_STOP_BEGIN, C->cur_main_op, 2, 1);
     });
 }
@@ -481,6 +483,8 @@ void run_ops(int producer, const std::vector<Op> &ops)
                 continue;
             int before = sim::thread_count();
             sim::ev(E_OP_BEGIN, (int)i);
+            if (!C->oth->ownThread())
+                C->quit_connected = QCoreApplication::instance() != nullptr;
             C->oth->moveToOwnThread();
             if (sim::thread_count() > before) {
                 sim::set_thread_name(before, "worker");
@@ -540,6 +544,7 @@ void run_ops(int producer, const std::vector<Op> &ops)
             if (C->app) {
                 delete C->app;
                 C->app = nullptr;
+                C->quit_connected = false; // the connection went with the application object
                 sim::ev(E_APP, 0);
             }
         } else if (k == "exit") {
